@@ -126,6 +126,7 @@ class SchemaSpec:
         self.resolve_type = {}  # abstract name -> "attr" | "fn-type" | "fn-name"
         self.objrepr = "obj"  # "obj" | "dict"
         self.root_default = False
+        self.share_fields = False
         # (type, field, argument) -> (python default, literal): an object type
         # may declare another default than its siblings / its interface
         self.arg_overrides = {}
@@ -408,6 +409,7 @@ def gen_schema(st, want_mutation=False, small=False,
             if b == "tdefault" and tname == "Subscription":
                 b = "sync"
             spec.behaviours[(tname, f)] = b
+    spec.share_fields = st.chance(1, 3, "share_fields")
     for aname in list(spec.interfaces) + list(spec.unions):
         spec.resolve_type[aname] = ("attr", "fn-type", "fn-name")[
             st.below(3, "rt")
@@ -682,6 +684,26 @@ class OpGen:
                 args.append((a.name, "[$%s]" % v))
                 argspec[a.name] = ("nnlistvar", v)
                 continue
+            if (named(a.type) == "Inp"
+                    and (a.type[0] != "L" or a.type[1][0] != "L")
+                    and not self.features.get("literal_only")
+                    and st.chance(1, 4, "objvar")):
+                # an object literal holding a variable: ``{a: $v}`` with
+                # ``$v: Int!``; in a list position the single object is
+                # wrapped into a one-item list
+                val = self._lit("Int", st)
+                v = self._new_var(("NN", ("N", "Int")), val, provided=True)
+                extra = {}
+                text = "{a: $%s" % v
+                if st.chance(1, 2, "objvar_b"):
+                    b_lit, _b_json, b_py = self._lit("String", st)
+                    text += ", b: %s" % b_lit
+                    extra["b"] = b_py
+                args.append((a.name, text + "}"))
+                argspec[a.name] = ("objvar", v, extra, a.type[0] == "L"
+                                   or (a.type[0] == "NN"
+                                       and a.type[1][0] == "L"))
+                continue
             if mode == 3:
                 if st.chance(1, 2, "nullvar"):
                     v = self._new_var(a.type, None, provided=True)
@@ -808,6 +830,7 @@ class OpGen:
         else:
             names = (sorted(self.spec.objects) + sorted(self.spec.interfaces)
                      + sorted(self.spec.unions))
+            names.append("NoSuchType")  # legal: the answer is null
             t = names[st.below(len(names), "meta_type")]
             f = FieldSel("__type", args=[("name", json.dumps(t))],
                          sel=[FieldSel("name"), FieldSel("kind")])
@@ -1097,6 +1120,11 @@ def resolve_op(op, spec):
                 kw[a.name] = src[1]
                 continue
             v = vars_[src[1]]
+            if src[0] == "objvar":
+                obj = dict(src[2])
+                obj["a"] = v.py
+                kw[a.name] = [obj] if src[3] else obj
+                continue
             if src[0] == "nnlistvar":
                 if v.provided and v.py is None:
                     argerr = True
